@@ -119,17 +119,20 @@ class World:
         self.a, self.z = Variable("a"), Variable("z")
         a, z = self.a, self.z
         self.objs = [x + 2 * y, x ** 2 + y ** 2, (a - 3) ** 2 + y ** 2, y ** 2 + (z + 2) ** 2, 2 * a + y, (y - 1) ** 2 + 4, 3 * y + 1]
-        self.cons = [x + y >= 1, x ** 2 + y <= 3, x >= 0.5, y <= 2, z + x >= 0.125, y >= 1.125]
+        from optyx.core import functions as _F
+        self.cons = [x + y >= 1, x ** 2 + y <= 3, x >= 0.5, y <= 2, z + x >= 0.125, y >= 1.125,
+                     _F.exp(x * 0.5) + y <= 8]              # 6: NON-polynomial (its degree is "none", not a number above 1)
         self.ser = ser.Ser()
         self.obj_terms = [self.ser.expr(o) for o in self.objs]
         self.con_terms = [f"({self.ser.expr(c.expr)}, {SENSE[c.sense]})" for c in self.cons]
 
 
 LETTERS = ["min0", "min1", "max0", "max1", "min2", "min3", "max3", "min4", "min5", "max6", "subj0", "subj1", "subjL", "subjLz", "subj5", "subjBad",
+           "subjE", "subjLk", "listAppend",
            "minBad", "maxBad", "ubx", "lby", "ubxN", "uby", "uba0", "lbz0", "read",
            "s:auto", "s:SLSQP", "s:trust-constr", "s:L-BFGS-B", "s:Nelder-Mead", "s:Powell", "s:linprog", "s:highs-ds"]
 REJECTED = {"subjBad", "minBad", "maxBad"}           # rejected calls: the model's ORejected (state, store and flags unchanged)
-NO_MODEL_OP = set()
+NO_MODEL_OP = {"listAppend"}        # the caller appends to THEIR list after having passed it to subject_to: nothing about the problem changes
 
 
 def op_term(w: World, L: str, toggles):
@@ -143,8 +146,10 @@ def op_term(w: World, L: str, toggles):
         return f"(OSubj {w.con_terms[0]})"
     if L == "subj1":
         return f"(OSubj {w.con_terms[1]})"
-    if L == "subjL":
+    if L in ("subjL", "subjLk"):
         return f"(OSubjList [{w.con_terms[2]}; {w.con_terms[3]}])"
+    if L == "subjE":
+        return f"(OSubj {w.con_terms[6]})"
     if L == "subjLz":
         return f"(OSubjList [{w.con_terms[4]}; {w.con_terms[3]}])"      # the NEW variable comes first, a known one last
     if L == "subj5":
@@ -203,6 +208,18 @@ class Runner:
             P.subject_to([w.cons[2], w.cons[3]])
         elif L == "subjLz":
             P.subject_to([w.cons[4], w.cons[3]])
+        elif L == "subjE":
+            P.subject_to(w.cons[6])
+        elif L == "subjLk":
+            self.kept = [w.cons[2], w.cons[3]]          # the caller keeps the list object
+            P.subject_to(self.kept)
+        elif L == "listAppend":
+            if getattr(self, "kept", None) is not None:
+                n0 = len(P.constraints)
+                self.kept.append(w.cons[1])
+                if len(P.constraints) != n0:
+                    self.bad_list = ("the problem adopted the caller's list object: appending to that list after subject_to(list) "
+                                     "silently added a constraint to the problem (no cache was invalidated)")
         elif L == "subj5":
             P.subject_to(w.cons[5])
         elif L == "subjBad":
@@ -447,7 +464,7 @@ def run(rep: vk.Report):
                 seqs.append(setup + (sa, ed, sb))
     # state, SOLVE, edit, EDIT, SOLVE: two consecutive structural edits with nothing read in between (what the second edit may
     # rely on - the variable list, a cache - was already dropped by the first), for every pair of objective / constraint edits
-    structural = [L for L in edits if L[:3] in ("min", "max", "sub") or L == "read"]
+    structural = [L for L in edits if L[:3] in ("min", "max", "sub") or L in ("read", "listAppend")]
     for setup, sv in [(("min3",), ["s:trust-constr", "s:SLSQP"]), (("min2", "subj5"), ["s:trust-constr", "s:auto"]), (("max1",), ["s:auto"])]:
         for sa in sv:
             pairs2 = list(itertools.product(structural, structural))
